@@ -199,6 +199,9 @@ func (r StatusVectorChunk) Marshal() ([]byte, error) {
 	numOfBits := numOfBitsOfSymbolSize()[r.SymbolSize]
 	// append 14 bit SymbolList
 	for i, s := range r.SymbolList {
+		if s >= 1<<numOfBits {
+			return nil, errFieldOutOfRange
+		}
 		index := numOfBits*uint16(i) + 2
 		dst, err = setNBitsOfUint16(dst, numOfBits, index, s)
 		if err != nil {
